@@ -80,7 +80,8 @@ extern "C" int harness_main() {
 extern "C" int harness_main() {
   ir2c_global_ctors();
   static const int kLens[] = { 1, 60, 250, 251, 252, 253, 254, 255, 256, 257, 500, 506, 507, 508, 509, 510, 511, 512, 513, 990, 1000, 1002, 1003, 1004, 1005, 1006, 1007, 1008, 1009, 1010, 1011, 1012, 1013, 1014, 1015, 1016, 1017, 1018, 1019, 1020, 1021, 1022, 1023, 1024, 1025, 1026,
-                               2040, 2047, 2048, 2049, 4080, 4090, 4095, 4096, 4097, 8190, 8192, 16384, 65536, 65537 };
+                               2040, 2047, 2048, 2049, 4080, 4090, 4095, 4096, 4097, 8190, 8192, 16384, 65536, 65537,
+                               262100, 262143, 262144, 262145, 300000 };      // (one record line longer than the reader's 256 KiB buffer: LineReader hands it out in pieces)
   int L = kLens[verif_concretize(verif_nondet("name_length", 0, (long)(sizeof kLens / sizeof kLens[0]) - 1))];
   State st; std::string err; Edge* ed[3]; std::string names[3];
   names[0] = std::string((size_t)L, 'a'); names[1] = "mid"; names[2] = std::string((size_t)L + 1, 'c');
@@ -93,17 +94,23 @@ extern "C" int harness_main() {
     for (int k = 0; k < 4; k++) { int i = kOrder[k]; ex[i].start = 10 * k; ex[i].end = 10 * k + 5; ex[i].mtime = 100 + k; VERIF_ASSERT(log.RecordCommand(ed[i], ex[i].start, ex[i].end, ex[i].mtime), "C08: RecordCommand succeeds"); }
     log.Close(); }
   int cont = verif_choice("continuation", 4);       // reload / append then reload / recompact / restat
+  bool long_read_back = true, long_kept = true;       // (asserted last: KF-C08-1 must not hide what happens to the other records afterwards)
   { BuildLog log; VERIF_ASSERT(log.Load(kLog, &err) == LOAD_SUCCESS, "C08: the log written by the previous session loads");
-    bool ok = true; for (int i = 0; i < 3; i++) { BuildLog::LogEntry* e = log.LookupByOutput(names[i]); ok = ok && e && e->start_time == ex[i].start && e->end_time == ex[i].end && e->mtime == ex[i].mtime && e->command_hash == BuildLog::LogEntry::HashCommand(ed[i]->EvaluateCommand(true)); }
-    VERIF_ASSERT(ok && log.entries().size() == 3, "C08: every record written by a session is read back, whatever the length of its output name, the last record per output winning");
+    // (records whose line may exceed the reader's 256 KiB line buffer are asserted separately: KF-C08-1)
+    bool ok = true, ok_long = true; size_t present = 0; for (int i = 0; i < 3; i++) { BuildLog::LogEntry* e = log.LookupByOutput(names[i]); present += e ? 1 : 0; bool good = e && e->start_time == ex[i].start && e->end_time == ex[i].end && e->mtime == ex[i].mtime && e->command_hash == BuildLog::LogEntry::HashCommand(ed[i]->EvaluateCommand(true)); if (names[i].size() >= 262000) ok_long = ok_long && good; else ok = ok && good; }
+    VERIF_ASSERT(ok && log.entries().size() == present, "C08: every record written by a session is read back, whatever the length of its output name, the last record per output winning");
+    long_read_back = ok_long;
     if (cont == 1) { VERIF_ASSERT(log.OpenForWrite(kLog, user, &err), "C08: open for append"); ex[0].start = 77; ex[0].end = 78; ex[0].mtime = 177; VERIF_ASSERT(log.RecordCommand(ed[0], 77, 78, 177), "C08: RecordCommand succeeds"); ex[1].start = 79; ex[1].end = 80; ex[1].mtime = 178; VERIF_ASSERT(log.RecordCommand(ed[1], 79, 80, 178), "C08: RecordCommand succeeds"); log.Close(); verif_reach("appended"); }
     else if (cont == 2) { VERIF_ASSERT(log.Recompact(kLog, user, &err), "C08: recompaction succeeds"); verif_reach("recompacted"); }
     else if (cont == 3) { struct D : public StatDisk { TimeStamp Stat(const std::string& path, std::string*) const override { return path == "mid" ? 555 : 444; } } d; VERIF_ASSERT(log.Restat(kLog, d, 0, NULL, &err), "C08: restat succeeds"); ex[0].mtime = 444; ex[1].mtime = 555; ex[2].mtime = 444; verif_reach("restatted"); }
     else verif_reach("reloaded"); }
   { BuildLog log; VERIF_ASSERT(log.Load(kLog, &err) == LOAD_SUCCESS, "C08: the log loads after the continuation");
-    bool ok = true; for (int i = 0; i < 3; i++) { BuildLog::LogEntry* e = log.LookupByOutput(names[i]); ok = ok && e && e->start_time == ex[i].start && e->end_time == ex[i].end && e->mtime == ex[i].mtime && e->command_hash == BuildLog::LogEntry::HashCommand(ed[i]->EvaluateCommand(true)); }
-    VERIF_ASSERT(ok && log.entries().size() == 3, "C08: appending, recompaction and restat keep the latest record of every output (long output names)");
+    bool ok = true, ok_long = true; size_t present = 0; for (int i = 0; i < 3; i++) { BuildLog::LogEntry* e = log.LookupByOutput(names[i]); present += e ? 1 : 0; bool good = e && e->start_time == ex[i].start && e->end_time == ex[i].end && e->mtime == ex[i].mtime && e->command_hash == BuildLog::LogEntry::HashCommand(ed[i]->EvaluateCommand(true)); if (names[i].size() >= 262000) ok_long = ok_long && good; else ok = ok && good; }
+    VERIF_ASSERT(ok && log.entries().size() == present, "C08: appending, recompaction and restat keep the latest record of every output (long output names)");
+    long_kept = ok_long;
     verif_obs((long)log.entries().size()); }
+  VERIF_ASSERT(long_read_back, "C08: a record whose line is longer than the reader's 256 KiB buffer is read back like any other");
+  VERIF_ASSERT(long_kept, "C08: a record whose line is longer than the reader's 256 KiB buffer survives appending, recompaction and restat");
   return 0;
 }
 #elif defined(MODE_LONG)
